@@ -5,6 +5,7 @@ import Rooc.Oracle
 import Rooc.Drv.C01
 import Rooc.Pipeline
 import Rooc.WireSolve
+import Rooc.Pre.IterWire
 namespace Rooc.Drv.C03
 open Rooc Sexp Sem
 
@@ -20,6 +21,20 @@ def handle (α : Type) [Arith α] [Wire α] : List Sexp → Sexp
       | .linearization e => app "linearization" [Drv.C01.encErr e]
       | .solver v => app "solver" [app "err" [.atom v]]
       | .panic => app "panic" []
+    | _, _, _ => app "err" [.atom "decode"]
+  | [.atom "solve-prog", p, .atom tc, tol, out] =>
+    -- the whole default path from a program of the iteration fragment (`Pipeline.solveProg`); `tc` = verdict of the real
+    -- type checker on the text (a parameter of the model)
+    match Pre.ProgM.dec p, (decNumS tol : Option α), (SolverWrap.MlpOutcome.dec out : Option (SolverWrap.MlpOutcome α)) with
+    | some p, some tol, some out =>
+      match Pipeline.solveProg p (tc == "1") tol Gen.boundsMaxSteps (fun _ => out) with
+      | .parseError => app "parse-error" []
+      | .typeError => app "transform-error" [.atom "type"]
+      | .transformError _ => app "transform-error" [.atom "transform"]
+      | .compiled (.solved lm s) => app "solved" [s.enc lm.vars]
+      | .compiled (.linearization e) => app "linearization" [Drv.C01.encErr e]
+      | .compiled (.solver v) => app "solver" [app "err" [.atom v]]
+      | .compiled .panic => app "panic" []
     | _, _, _ => app "err" [.atom "decode"]
   | args => Drv.C01.handle α args
 
